@@ -91,7 +91,7 @@ func runCodecCase(e *Env, c *jCodecCase) error {
 	}
 	// across the real codec, as a field of a query result message
 	in := &rpc.RemoteQueryResult{Fields: core.Fields{core.NewField("f", orig)}}
-	wire, err := rpc.Codec.Marshal(in)
+	wire, err := marshalHeld(in)
 	if err != nil {
 		return fmt.Errorf("marshal %v: %v", orig, err)
 	}
@@ -140,8 +140,24 @@ func runCodecCase(e *Env, c *jCodecCase) error {
 	return nil
 }
 
-func msgRoundTrip(v interface{}, fresh interface{}) bool {
+// marshalHeld encodes v and then encodes other messages before the bytes are looked at: the transport holds an
+// encoded message by reference until it has been written, while the next rows are already being encoded
+func marshalHeld(v interface{}) ([]byte, error) {
 	wire, err := rpc.Codec.Marshal(v)
+	if err != nil {
+		return nil, err
+	}
+	for i := 0; i < 3; i++ {
+		other := &rpc.RemoteQueryResult{Row: &core.FlatRow{TS: int64(1000 + i), Key: bytemap.New(map[string]interface{}{"zz": "other", "n": i}), Values: []float64{9, 8, 7, 6, 5, 4, 3, 2, 1}}}
+		if _, oerr := rpc.Codec.Marshal(other); oerr != nil {
+			return nil, oerr
+		}
+	}
+	return wire, nil
+}
+
+func msgRoundTrip(v interface{}, fresh interface{}) bool {
+	wire, err := marshalHeld(v)
 	if err != nil {
 		return false
 	}
@@ -203,7 +219,7 @@ func runC20Codec(e *Env) error {
 			}
 			// flat rows: values and key
 			fr := &core.FlatRow{TS: p.TS.T().UnixNano(), Key: dims, Values: []float64{1.5, -2, 0}}
-			wire, _ := rpc.Codec.Marshal(&rpc.RemoteQueryResult{Row: fr})
+			wire, _ := marshalHeld(&rpc.RemoteQueryResult{Row: fr})
 			out := &rpc.RemoteQueryResult{}
 			ok := rpc.Codec.Unmarshal(wire, out) == nil && out.Row != nil && out.Row.TS == fr.TS && reflect.DeepEqual(out.Row.Values, fr.Values) && string(out.Row.Key) == string(fr.Key)
 			e.Case(fmt.Sprintf("MsgCase %s", gbool(ok)), map[string]interface{}{"msg": "FlatRow", "ok": ok, "nt": true})
